@@ -1,12 +1,35 @@
 """What MANIFEST.json claims per property (text, trusted base, technique)."""
 
 NOT_APPLICABLE = {
-    'C17': 'every clause is continuous single-precision geometry over run-time glyph boxes, offsets and limits; no structural '
-           'necessary condition decidable from the source was found (DESIGN.md section 6, C17) -- not claimed rather than '
-           'approximated by a runtime test',
 }
 
 CLAIMS = {
+    'C17': {
+        'text': 'The geometric clauses of C17 (a computed shift keeps the accumulated offset inside the limit rectangle; a "resolved" glyph\'s '
+                'octabox does not overlap its neighbours\') are single-precision arithmetic over run-time boxes and are NOT decided.  Decided, '
+                'narrowly, is the clause that is in the shape of the code because the code only COMPARES the quantities involved: "the '
+                'cost-ordered set of free intervals it searches always remains sorted, disjoint, inside its bounds, and never offers a position '
+                'that was excluded".  ZONESET: Zones::remove and Zones::insert (with outcode, split_at, left_trim, operator+=, separated, min/max '
+                'inlined from their own CFGs) are abstractly interpreted over every order type of their arguments against every sorted, disjoint, '
+                'in-bounds list of up to 3 (thorough: 4) intervals, with and without empty intervals -- about 88 000 order types each; on every '
+                'abstract path the run terminates, no iterator is dereferenced / inserted at / erased at outside the vector or after an insertion '
+                'that may have moved its storage, the resulting list is again sorted, disjoint and inside [_pos,_posm] (the invariant is inductive), '
+                'no interval meets the removed open range, and insert makes no new position available.  The interpreter enforces that interval end '
+                'points are only compared, min/max-ed, copied, or subtracted and compared with 0 -- the discipline that makes one representative per '
+                'order type exhaustive; arithmetic on them is analysis-broken, not guessed.  ZONEWRITERS: end points, bounds and the vector are '
+                'written only by the interpreted functions and initialise.  OFFERED: Exclusion::track_cost (with test_position, cost) over every order '
+                'type of (x, xm, origin), every weight sign and every outcome of every cost comparison updates the best position only together '
+                'with a lower cost and only to a position inside [x,xm]; Zones::closest with find_exclusion_under over every list and origin '
+                'placement dereferences nothing outside the list and, unless it reports the -1 "nothing found" cost, returns a position inside an '
+                'interval of the list.  RESOLVED: ShiftCollider::resolve starts from "collision remains" and clears it / takes a position only under '
+                'bestCost >= 0 for the cost Zones::closest just produced.  Bounded exhaustive (list length), not an unbounded proof.',
+        'note': 'Trusted: clang 14 CFG, tools/grfacts, rules/ordint.py (the abstract interpreter; graphite2::Vector is modelled natively as a list with '
+                'index iterators and a storage generation), rules/c17.py.  Assumes finite non-NaN floats and a well-formed [_pos,_posm] (C17\'s own '
+                'precondition).  An expression kind the interpreter does not model is exit 2.  The limit-rectangle arithmetic of initSlot and the '
+                'octabox geometry of mergeSlot are not decided (seeded changes C17-1, C17-3 are recorded misses).',
+        'technique': 'abstract interpretation of the exported CFGs over the order-type domain (finite set of weak orderings of interval end points, bounds and arguments; bounded list length) + who-may-write + dominance rule',
+        'ref': 'DESIGN.md section 6, C17 and section 13.7',
+    },
     'C20': {
         'text': 'Decides the byte-level contract of gr_tag_to_str / gr_str_to_tag completely (both are loop-free: every CFG path is '
                 'enumerated): exact set of buffer offsets stored and the tag byte each receives; every str[j] read only under a '
